@@ -1,5 +1,5 @@
 (* C20 -- ExposeHostPort accepts exactly port[-port][/tcp|/udp]. *)
-From QV Require Import Model.Base Generated.Tables Model.Quote Model.PortRange Model.Unit Model.Names Model.Convert Spec.PortRe Proofs.C07 Proofs.C20 Proofs.C02shape.
+From QV Require Import Model.Base Generated.Tables Model.Quote Model.PortRange Model.Unit Model.Names Model.Convert Spec.PortRe Proofs.C07 Proofs.C20 Proofs.C02shape Model.Parser Model.Path Model.Process Model.ProcessD Proofs.C16trees.
 
 (* the hand-written recogniser accepts exactly the regular language, for every code-point string *)
 Theorem C20_exact : forall s : str, is_port_range s = true <-> PortRe s.
@@ -41,6 +41,23 @@ Proof.
   destruct (container_shape _ _ _ _ _ _ _ _ _ _ H) as (before & mods & cname & mid & obj & ports' & _ & Hp' & F & _).
   rewrite Hp in Hp'. injection Hp' as <-. apply Exists_exists in Hex. destruct Hex as [p [Hin Hn]].
   rewrite Forall_forall in F. apply Hn. apply C20_exact. exact (F p Hin).
+Qed.
+
+(* ---- every container service of the whole run with drop-ins: its unit's effective ExposeHostPort= values -- main file merged with
+   its drop-ins -- are all in the language, and the command carries --expose <value> for each (by the bridge
+   trees_results_are_conversions: every service of the run is one conversion of one merged unit) ---- *)
+Theorem C20_every_container_service_of_the_run : forall podman exists_path kill_fixed mount_nl b (files : list (str * str * list str)) p svc sp,
+  In (p, ROk svc sp) (snd (process_trees podman exists_path kill_fixed mount_nl b files)) -> type_of_path p = Some TContainer ->
+  exists text ds u0 ports before pre post, In (p, text, ds) files /\ parse_unit text = Some u0 /\
+    @lk_all berr (fst (merge_dropins u0 ds)) c_CONTAINER_SECTION (s2l "ExposeHostPort") = COk ports /\
+    Forall (fun q => PortRe (trim q)) ports /\
+    vals svc SEC_S (s2l "ExecStart") = before ++ [quote_words (pre ++ flat_map (fun q => [s2l "--expose"; trim q]) ports ++ post)].
+Proof.
+  intros podman ep kf mn b files p svc sp Hr Ht.
+  destruct (trees_results_are_conversions _ _ _ _ _ _ _ _ _ Hr) as (text & ds & u0 & t & tbl & t1 & Hin & Hp & Ht' & Hc).
+  rewrite Ht in Ht'. injection Ht' as <-. cbn [convert_one] in Hc.
+  destruct (C20_callsite_accepts _ _ _ _ _ _ _ _ _ _ Hc) as (ports & before & pre & post & A & B & C).
+  exists text, ds, u0, ports, before, pre, post. auto.
 Qed.
 
 Check C20_exact : forall s : str, is_port_range s = true <-> PortRe s.
